@@ -329,11 +329,11 @@ def norm_out(case, out, pid=None):
     'surfaces as an I/O error' by its oracle on the raw output, C12's 'same error kind under every encoding' by its oracle."""
     if out is not None and out.startswith("err ") and case.split(" ", 1)[0] in ("build", "dump", "threads"):
         return "err"
-    # The KIND of a section / line / reader error is C05's subject (and, relationally, C12's and C08's, whose oracles read the raw
-    # output).  Every other property is about something else - how many items, where the cursor stands, what round-trips, whether
+    # The KIND of a section / line / reader error is C05's subject and C12's ("do not change any ... error kind ... only line numbers
+    # quoted in errors shift"); C08's oracle reads the raw output.  Every other property is about something else - how many items, where the cursor stands, what round-trips, whether
     # anything panics - so its comparison with the model keeps the shape (an error item here, a section there) and drops the kind:
     # a tree that renames an error variant is then reported by C05, which cannot decide without the name, and by nobody else.
-    if pid != "C05" and out is not None and case.split(" ", 1)[0] in ("sections", "ops", "lines", "raw", "pline"):
+    if pid not in ("C05", "C12") and out is not None and case.split(" ", 1)[0] in ("sections", "ops", "lines", "raw", "pline"):
         out = _ERR_TOK.sub("err:*", _E_ITEM.sub("E(*)", out))
     # C15: "a different contig or strand is an error", "constructing a pair from unequal lengths is refused" - which variant
     # carries the refusal is not stated (the harmless refactor C15-t3 introduces its own variants)
